@@ -16,6 +16,7 @@ for d in sorted(glob.glob("/verif/seeded/c*-*")):
     except OSError: v = []
     if "SUPERSEDED:" in (open(d + "/verify.log").read() if v else ""): pass
     f = v[0] if v else "?"; l = [x for x in v if x != "?"][-1] if [x for x in v if x != "?"] else "?"
+    if "superseded" in v: l = "superseded"; f = [x for x in v if x != "superseded"][0]
     rounds[r][f] += 1; final[r][l] += 1
     if f != "caught": lists[r][f].append(tag)
     if l not in ("caught", "superseded"): lists[r]["final-" + l].append(tag)
